@@ -30,9 +30,18 @@ def run(ctx):
         "the generator; the model says fatal there",
     ]
     ctx.assumptions += ["response-file arguments contain no newline, do not end in CR, lines < 64 KiB"]
+    ctx.extra["not_claimed_observations"] = [
+        "a bare `-` where an option is expected is silently dropped (Props.C10.observation_bare_dash_dropped)",
+        "a first positional that starts with `-` or `@` without a preceding `--` is an option / response file by "
+        "construction",
+        "a response-file reference in value position is taken literally "
+        "(Props.C10.observation_reference_in_value_position)",
+        "an option named U+FFFD that takes a value + an invalid UTF-8 byte in short-option position: Parse panics "
+        "(slice bounds) instead of exiting; not generated",
+    ]
     ctx.lean(props=["Props.C10"], drivers=["drv_c10"])
     ctx.harness("./cmd/c10")
-    ctx.diff(area="parse", driver="drv_c10", n={"quick": 60000, "thorough": 1500000}, shards=14,
+    ctx.diff(area="parse", driver="drv_c10", n={"quick": 60000, "thorough": 800000}, shards=14,
              trivial=_trivial, tagger=_tag,
              theorem="C10.parse_render / response_split / malformed_* (Props/C10.lean) are about the model; "
                      "the implementation differs from the model on this argument vector")
